@@ -18,18 +18,19 @@ MC_MODELS = {
 # S->I scenario generators: TLC enumerates behaviours, the harness replays them on the real code
 GENERATORS = {
     "Gen_Memory": {"tla": "MC_Memory.tla", "cfg": "Gen_Memory.cfg", "thorough_cfg": "Gen_Memory_thorough.cfg", "timeout": 600},
+    "Gen_Rx": {"tla": "MC_Rx.tla", "cfg": "Gen_Rx.cfg", "timeout": 600, "quick_simulate": [600, 10], "thorough_simulate": [6000, 10]},
     "Gen_Labels": {"tla": "MC_Labels.tla", "cfg": "Gen_Labels.cfg", "timeout": 900, "quick_sample": 1500},
 }
 
 PLAN = {
     "C01": {"mc": ["MC_Frag", "MC_FragReal"], "drivers": [D("lattice"), D("chains")]},
     "C02": {"mc": ["MC_Frag", "MC_FragReal", "MC_FragLive", "MC_Rx"], "drivers": [D("chains"), D("lattice")]},
-    "C03": {"mc": ["MC_Rx", "MC_Crc"], "drivers": [D("faults"), D("chains"), D("ext")]},
+    "C03": {"mc": ["MC_Rx", "MC_Crc"], "drivers": [D("rxscn", "--scn", "@gen:Gen_Rx"), D("faults"), D("chains"), D("ext")]},
     "C04": {"mc": ["MC_Labels"], "drivers": [D("labels"), D("labels", "--scn", "@gen:Gen_Labels"), D("chains")]},
     "C05": {"mc": ["MC_Wire", "MC_Rx"], "drivers": [D("fuzzrx"), D("faults")]},
     "C06": {"mc": ["MC_Frag", "MC_FragReal", "MC_Wire"], "drivers": [D("lattice"), D("chains"), D("ext")]},
-    "C07": {"mc": ["MC_Rx"], "drivers": [D("interleave"), D("frames")]},
-    "C08": {"mc": ["MC_Rx", "MC_Memory"], "drivers": [D("fuzzrx"), D("faults"), D("interleave"), D("labels")]},
+    "C07": {"mc": ["MC_Rx"], "drivers": [D("rxscn", "--scn", "@gen:Gen_Rx"), D("interleave"), D("frames")]},
+    "C08": {"mc": ["MC_Rx", "MC_Memory"], "drivers": [D("rxscn", "--scn", "@gen:Gen_Rx"), D("fuzzrx"), D("faults"), D("interleave"), D("labels")]},
     "C09": {"mc": ["MC_Labels", "MC_Frag"], "drivers": [D("lattice"), D("labels"), D("ext")]},
     "C10": {"mc": ["MC_Wire", "MC_Rx"], "drivers": [D("frames"), D("chains"), D("ext")]},
     "C11": {"mc": ["MC_Frag", "MC_FragReal", "MC_FragLive"], "drivers": [D("lattice"), D("chains")]},
@@ -37,7 +38,7 @@ PLAN = {
     "C13": {"mc": ["MC_Wire"], "drivers": [D("extnew"), D("ext")]},
     "C14": {"mc": ["MC_Header"], "drivers": [D("hdr")], "exhaustive": True},
     "C15": {"mc": ["MC_Labels"], "drivers": [D("labels"), D("labels", "--scn", "@gen:Gen_Labels"), D("lattice")]},
-    "C16": {"mc": ["MC_Rx"], "drivers": [D("fuzzrx"), D("faults")]},
+    "C16": {"mc": ["MC_Rx"], "drivers": [D("rxscn", "--scn", "@gen:Gen_Rx"), D("fuzzrx"), D("faults")]},
     "C17": {"mc": ["MC_Memory"], "drivers": [D("memops"), D("memops", "--scn", "@gen:Gen_Memory")]},
     "C18": {"mc": ["MC_Frag"], "drivers": [D("lattice")]},
     "C19": {"mc": ["MC_Wire"], "drivers": [D("chains"), D("frames"), D("ext")]},
